@@ -1266,13 +1266,18 @@ impl Generatable for Expression
 				let mut arguments: Vec<LLVMValueRef> = arguments?;
 
 				let result = unsafe {
-					LLVMBuildCall(
+					let call = LLVMBuildCall(
 						llvm.builder,
 						function,
 						arguments.as_mut_ptr(),
 						arguments.len() as u32,
 						cstr!(""),
-					)
+					);
+					LLVMSetInstructionCallConv(
+						call,
+						LLVMGetFunctionCallConv(function),
+					);
+					call
 				};
 				Ok(result)
 			}
